@@ -28,10 +28,29 @@ THE SOFTWARE.
 """
 
 
+def _map_power(self, expr, enclosing_prec, *args, **kwargs):
+    # '**' associates to the right in both target languages, so a power
+    # that is the base of a power keeps its parentheses: (a**b)**c.
+    from pymbolic.mapper.stringifier import PREC_POWER
+    from pymbolic.primitives import Power
+
+    base = self.rec(expr.base, PREC_POWER, *args, **kwargs)
+    if isinstance(expr.base, Power):
+        base = "(%s)" % base
+
+    return self.parenthesize_if_needed(
+            self.format(
+                "%s**%s", base,
+                self.rec(expr.exponent, PREC_POWER, *args, **kwargs)),
+            enclosing_prec, PREC_POWER)
+
+
 # {{{ fortran
 
 class FortranExpressionMapper(StringifyMapper):
     """Converts expressions to Fortran code."""
+
+    map_power = _map_power
 
     def __init__(self, name_manager):
         """name_manager is a map from a variable name (as a string) to its
@@ -147,6 +166,8 @@ class FortranExpressionMapper(StringifyMapper):
 
 class PythonExpressionMapper(StringifyMapper):
     """Converts expressions to Python code."""
+
+    map_power = _map_power
 
     def __init__(self, name_manager, function_registry,
             numpy="numpy"):
